@@ -192,7 +192,28 @@ func (p *probeRT) run(done chan struct{}) {
 		payloads = [][]byte{b}
 	case "prefix", "bitflip", "trunc", "replay-first":
 		var first []byte
-		if pr.Transport == "tcp" {
+		if pr.Intercepted {
+			for i := 0; i < 4000 && first == nil; i++ {
+				if first = p.w.Tap.firstSegmentAny(pr.Source, pr.Transport == "udp"); first == nil {
+					select {
+					case <-done:
+						i = 4000
+					case <-time.After(5 * time.Millisecond):
+					}
+				}
+			}
+			if first == nil {
+				p.skipped = "no intercepted segment"
+				return
+			}
+			if pr.CutTail > 0 {
+				pr.Arg = len(first) - pr.CutTail
+			}
+			if (pr.Kind != "prefix" && pr.Kind != "trunc") || pr.Arg >= len(first) || pr.Arg < 0 {
+				p.skipped = "not a proper prefix of the intercepted segment"
+				return
+			}
+		} else if pr.Transport == "tcp" {
 			b, g := p.sourceStream(done)
 			if len(g) == 0 {
 				p.skipped = "no source stream"
